@@ -94,10 +94,10 @@ func VerifC09UpdateStep(v *vrt.T) {
 }
 
 type verifSeen struct {
-	topic, id  string
-	level      Level
-	prevLevel  Level
-	prevKnown  bool
+	topic, id string
+	level     Level
+	prevLevel Level
+	prevKnown bool
 }
 
 type verifRecHandler struct {
@@ -117,7 +117,7 @@ func VerifC09Delivery(v *vrt.T) {
 	topics := []string{"t1", "t2"}
 	hs := []*verifRecHandler{{name: "h1"}, {name: "h2"}}
 	want := [2][2][]verifSeen{} // want[handler][topic]: FIFO is per handler registration (one buffer per topic)
-	reg := [2][2]bool{} // reg[topic][handler]
+	reg := [2][2]bool{}         // reg[topic][handler]
 	last := []map[string]Level{{}, {}}
 	k := v.Bound("ops", 4)
 	for step := 0; step < k; step++ {
@@ -250,12 +250,11 @@ func (h *verifBlockedHandler) Handle(e Event) {
 
 // VerifC09Saturation: a handler whose buffer is full (a slow or blocked handler: events for
 // it are dropped, as documented) does not affect the other handlers of the topic: they
-// still receive every collected event exactly once, in order. The event buffer length is
-// set to 1 or 2 (white box; the daemon's minimum is 500), the blocked handler is registered
-// before or after the recording one.
+// still receive every collected event exactly once, in order. The topics use the smallest
+// event buffer the daemon accepts (MinimumEventBufferSize); the blocked handler is
+// registered before or after the recording one; the buffer overflows by `extra` events.
 func VerifC09Saturation(v *vrt.T) {
-	ts := NewTopics(0)
-	ts.eventBufferSize = 1 + v.Choose("buffer length", 2)
+	ts := NewTopics(MinimumEventBufferSize)
 	blocked := &verifBlockedHandler{release: make(chan struct{})}
 	rec := &verifRecHandler{name: "rec"}
 	if v.Choose("blocked handler registered first", 2) == 1 {
@@ -265,19 +264,26 @@ func VerifC09Saturation(v *vrt.T) {
 		ts.RegisterHandler("t", rec)
 		ts.RegisterHandler("t", blocked)
 	}
-	k := v.Bound("events", 5)
+	extra := v.Bound("extra", 3)
+	k := MinimumEventBufferSize + 1 + extra // one event is held by the blocked Handle call
 	var lvls []Level
 	for i := 0; i < k; i++ {
-		lvl := Level(v.IntRange("lvl", 0, 3))
+		lvl := Warning
+		if i >= k-extra {
+			lvl = Level(v.IntRange("lvl", 0, 3)) // the events past the full buffer
+		}
 		lvls = append(lvls, lvl)
 		// the error of a full buffer is reported to the collector; the event is collected
 		_ = ts.Collect(Event{Topic: "t", State: EventState{ID: "a", Level: lvl}})
-		v.Goroutines() // the recording handler keeps up
+		if i%100 == 99 || i >= k-extra-2 {
+			v.Goroutines() // the recording handler keeps up (its own buffer never fills)
+		}
 	}
+	v.Goroutines()
 	v.Observe("delivered", len(rec.seen))
 	v.Assert(len(rec.seen) == k, "the other handler receives every collected event although one handler's buffer is full")
 	if len(rec.seen) == k {
-		for i := range lvls {
+		for i := k - extra; i < k; i++ {
 			v.Assert(rec.seen[i].level == lvls[i], "in collection order")
 		}
 	}
